@@ -83,7 +83,7 @@ func cmdNegotiate(args []string) int {
 		runs++
 		events += w.N
 		if len(w.Panics) > 0 {
-			fmt.Printf("PANIC negotiate %s\n", w.Panics[0])
+			fmt.Printf("PANIC negotiate %s\n", firstLines(w.Panics[0], 1))
 		}
 	}
 	for i, pr := range pairs {
